@@ -244,7 +244,7 @@ func (rw *rewriter) file(fset *token.FileSet, f *ast.File, path string) (poolRef
 			haveSimrt = true
 		}
 	}
-	others := 0
+	others, mapRefs := 0, 0
 	if syncSpec != nil && syncName != "_" && syncName != "." {
 		ast.Inspect(f, func(node ast.Node) bool {
 			sel, ok := node.(*ast.SelectorExpr)
@@ -258,6 +258,12 @@ func (rw *rewriter) file(fset *token.FileSet, f *ast.File, path string) (poolRef
 			if sel.Sel.Name == "Pool" {
 				id.Name = "simrt"
 				poolRefs++
+			} else if sel.Sel.Name == "Map" && rewriteLevel >= 1 {
+				// sync.Map -> simrt.SyncMap: Range order from the tape, a yield
+				// point after every operation (simrt/syncmap.go)
+				id.Name = "simrt"
+				sel.Sel.Name = "SyncMap"
+				mapRefs++
 			} else {
 				others++
 			}
@@ -272,11 +278,11 @@ func (rw *rewriter) file(fset *token.FileSet, f *ast.File, path string) (poolRef
 		}
 		points = rw.instrument(f)
 	}
-	if poolRefs == 0 && points == 0 {
+	if poolRefs == 0 && mapRefs == 0 && points == 0 {
 		return 0, 0, nil
 	}
 	if !haveSimrt {
-		if syncSpec != nil && poolRefs > 0 && others == 0 {
+		if syncSpec != nil && poolRefs+mapRefs > 0 && others == 0 {
 			// sync is no longer used: turn its import into the simrt import.
 			syncSpec.Path.Value = strconv.Quote("verif.local/simrt")
 			syncSpec.Name = ast.NewIdent("simrt")
@@ -409,6 +415,182 @@ func (rw *rewriter) isChan(e ast.Expr) bool {
 	}
 	_, ok := t.Underlying().(*types.Chan)
 	return ok
+}
+
+func (rw *rewriter) isMap(e ast.Expr) bool {
+	if !rw.typed {
+		return false
+	}
+	t := rw.info.TypeOf(e)
+	if t == nil {
+		return false
+	}
+	_, ok := t.Underlying().(*types.Map)
+	return ok
+}
+
+// ptrKeyed says whether the keys of the map expression contain pointers
+// (their canonical order is the order in which the library stores them).
+func (rw *rewriter) ptrKeyed(e ast.Expr) bool {
+	if !rw.typed {
+		return false
+	}
+	t := rw.info.TypeOf(e)
+	if t == nil {
+		return false
+	}
+	m, ok := t.Underlying().(*types.Map)
+	if !ok {
+		return false
+	}
+	var has func(t types.Type, depth int) bool
+	has = func(t types.Type, depth int) bool {
+		if depth > 6 {
+			return false
+		}
+		switch u := t.Underlying().(type) {
+		case *types.Pointer, *types.Chan, *types.Interface:
+			return true
+		case *types.Basic:
+			return u.Kind() == types.UnsafePointer
+		case *types.Struct:
+			for i := 0; i < u.NumFields(); i++ {
+				if has(u.Field(i).Type(), depth+1) {
+					return true
+				}
+			}
+		case *types.Array:
+			return has(u.Elem(), depth+1)
+		}
+		return false
+	}
+	return has(m.Key(), 0)
+}
+
+// pureExpr: evaluating the expression twice is harmless.
+func pureExpr(e ast.Expr) bool {
+	switch x := e.(type) {
+	case *ast.Ident, *ast.BasicLit:
+		return true
+	case *ast.ParenExpr:
+		return pureExpr(x.X)
+	case *ast.SelectorExpr:
+		return pureExpr(x.X)
+	case *ast.StarExpr:
+		return pureExpr(x.X)
+	case *ast.UnaryExpr:
+		return x.Op == token.AND && pureExpr(x.X)
+	}
+	return false
+}
+
+// oldLoopVars: the module's go directive is below 1.22, so a range statement
+// declares its variables once per loop. The rewritten map range declares them
+// once per iteration; the difference can only be observed by a function
+// literal in the body, and such loops are left as they are.
+var oldLoopVars bool
+
+func hasFuncLit(n ast.Node) bool {
+	found := false
+	ast.Inspect(n, func(c ast.Node) bool {
+		if _, ok := c.(*ast.FuncLit); ok {
+			found = true
+		}
+		return !found
+	})
+	return found
+}
+
+// terminating implements the language specification's "terminating statement"
+// (syntactically): the rewritten form of a select that was terminating must be
+// terminating too, or the function it ends no longer compiles.
+func terminating(s ast.Stmt) bool {
+	switch st := s.(type) {
+	case *ast.ReturnStmt:
+		return true
+	case *ast.BranchStmt:
+		return st.Tok == token.GOTO
+	case *ast.ExprStmt:
+		if call, ok := st.X.(*ast.CallExpr); ok {
+			if id, ok := call.Fun.(*ast.Ident); ok && id.Name == "panic" {
+				return true
+			}
+		}
+	case *ast.BlockStmt:
+		return len(st.List) > 0 && terminating(st.List[len(st.List)-1])
+	case *ast.IfStmt:
+		return st.Else != nil && terminating(st.Body) && terminating(st.Else)
+	case *ast.ForStmt:
+		return st.Cond == nil && !breaksOut(st.Body.List)
+	case *ast.LabeledStmt:
+		return terminating(st.Stmt)
+	case *ast.SwitchStmt, *ast.TypeSwitchStmt:
+		var body *ast.BlockStmt
+		if sw, ok := st.(*ast.SwitchStmt); ok {
+			body = sw.Body
+		} else {
+			body = st.(*ast.TypeSwitchStmt).Body
+		}
+		hasDefault := false
+		for _, c := range body.List {
+			cc := c.(*ast.CaseClause)
+			if cc.List == nil {
+				hasDefault = true
+			}
+			if breaksOut(cc.Body) {
+				return false
+			}
+			if len(cc.Body) == 0 {
+				return false
+			}
+			last := cc.Body[len(cc.Body)-1]
+			if b, ok := last.(*ast.BranchStmt); ok && b.Tok == token.FALLTHROUGH {
+				continue
+			}
+			if !terminating(last) {
+				return false
+			}
+		}
+		return hasDefault
+	case *ast.SelectStmt:
+		for _, c := range st.Body.List {
+			cc := c.(*ast.CommClause)
+			if breaksOut(cc.Body) || len(cc.Body) == 0 || !terminating(cc.Body[len(cc.Body)-1]) {
+				return false
+			}
+		}
+		return true
+	}
+	return false
+}
+
+// breaksOut: an unlabelled break in stmts refers to the enclosing statement
+// (labelled breaks are not tracked: the caller excludes labelled statements).
+func breaksOut(stmts []ast.Stmt) bool {
+	found := false
+	for _, s := range stmts {
+		ast.Inspect(s, func(n ast.Node) bool {
+			switch b := n.(type) {
+			case *ast.ForStmt, *ast.RangeStmt, *ast.SwitchStmt, *ast.TypeSwitchStmt, *ast.SelectStmt, *ast.FuncLit:
+				return false
+			case *ast.BranchStmt:
+				if b.Tok == token.BREAK && b.Label == nil {
+					found = true
+				}
+			}
+			return !found
+		})
+	}
+	return found
+}
+
+func unreachable() ast.Stmt {
+	return &ast.ExprStmt{X: &ast.CallExpr{Fun: ast.NewIdent("panic"), Args: []ast.Expr{&ast.BasicLit{Kind: token.STRING, Value: `"simrt: unreachable (the select statement rewritten here was terminating)"`}}}}
+}
+
+func isBlank(e ast.Expr) bool {
+	id, ok := e.(*ast.Ident)
+	return e == nil || (ok && id.Name == "_")
 }
 
 // recvExprs replaces every receive expression "<-ch" outside the
@@ -671,6 +853,48 @@ func (rw *rewriter) instrument(f *ast.File) int {
 				body := &ast.BlockStmt{List: append(append(pre, recv, brk), st.Body.List...)}
 				return []ast.Stmt{&ast.ForStmt{Body: body}}
 			}
+			if rw.isMap(st.X) && !(isBlank(st.Key) && isBlank(st.Value)) && !(oldLoopVars && st.Tok == token.DEFINE && hasFuncLit(st.Body)) {
+				// for k, v := range m { body }  ->  the keys present now, in an
+				// order the tape decides (simrt.MapKeys); see simrt/maporder.go
+				id := strconv.Itoa(n)
+				n++
+				m, key, val, ok := ast.NewIdent("simrtMap"+id), ast.NewIdent("simrtKey"+id), ast.NewIdent("simrtVal"+id), ast.NewIdent("simrtOk"+id)
+				pre := &ast.AssignStmt{Lhs: []ast.Expr{m}, Tok: token.DEFINE, Rhs: []ast.Expr{st.X}}
+				lookupLhs := []ast.Expr{ast.NewIdent("_"), ok}
+				if !isBlank(st.Value) {
+					lookupLhs[0] = val
+				}
+				lookup := &ast.AssignStmt{Lhs: lookupLhs, Tok: token.DEFINE, Rhs: []ast.Expr{&ast.IndexExpr{X: m, Index: key}}}
+				skip := &ast.IfStmt{Cond: &ast.UnaryExpr{Op: token.NOT, X: ok}, Body: &ast.BlockStmt{List: []ast.Stmt{&ast.BranchStmt{Tok: token.CONTINUE}}}}
+				prefix := []ast.Stmt{lookup, skip}
+				var lhs, rhs []ast.Expr
+				if !isBlank(st.Key) {
+					lhs, rhs = append(lhs, st.Key), append(rhs, key)
+				}
+				if !isBlank(st.Value) {
+					lhs, rhs = append(lhs, st.Value), append(rhs, val)
+				}
+				prefix = append(prefix, &ast.AssignStmt{Lhs: lhs, Tok: st.Tok, Rhs: rhs})
+				st.Key, st.Value, st.Tok = ast.NewIdent("_"), key, token.DEFINE
+				st.X = &ast.CallExpr{Fun: simrtFn("MapKeys"), Args: []ast.Expr{m}}
+				st.Body.List = append(prefix, st.Body.List...)
+				return []ast.Stmt{pre, st}
+			}
+		case *ast.AssignStmt:
+			// m[k] = v with pointers in the key: number them in program order
+			var notes []ast.Stmt
+			for _, l := range st.Lhs {
+				if ix, ok := l.(*ast.IndexExpr); ok && rw.ptrKeyed(ix.X) && pureExpr(ix.Index) {
+					notes = append(notes, simrtCall("MapKey", ix.Index))
+				}
+			}
+			if len(notes) > 0 {
+				return append(notes, s)
+			}
+		case *ast.IncDecStmt:
+			if ix, ok := st.X.(*ast.IndexExpr); ok && rw.ptrKeyed(ix.X) && pureExpr(ix.Index) {
+				return []ast.Stmt{simrtCall("MapKey", ix.Index), s}
+			}
 		case *ast.SelectStmt:
 			// a select without default blocks: add "default: Blocked()" and loop
 			hasDefault := false
@@ -682,7 +906,13 @@ func (rw *rewriter) instrument(f *ast.File) int {
 				}
 				bodies = append(bodies, cc.Body...)
 			}
-			if rw.typed && !hasDefault && !labelled && len(st.Body.List) > 0 && !hasUnlabeledContinue(bodies) {
+			ncomm := len(st.Body.List)
+			if hasDefault {
+				ncomm--
+			}
+			ordered := ncomm >= 2 // which of several ready cases proceeds is decided by the tape
+			term := terminating(st)
+			if rw.typed && (!hasDefault || ordered) && !labelled && len(st.Body.List) > 0 && !hasUnlabeledContinue(bodies) {
 				// The select now sits in a loop, but its channel operands and send
 				// values must still be evaluated exactly once (a time.After in a
 				// case would otherwise start a new timer at every retry).
@@ -713,17 +943,74 @@ func (rw *rewriter) instrument(f *ast.File) int {
 						}
 					}
 				}
+				if ordered {
+					// simrtSelLoopN:
+					// for try, start := 0, simrt.SelectStart(n); ; try++ {
+					//	if try == n { <default body; break loop>  or  <blocked: yield, try = -1, continue> }
+					//	switch (start + try) % n {
+					//	case i: select { case COMM_i: BODY_i; default: continue }
+					//	}
+					//	break simrtSelLoopN
+					// }
+					id := strconv.Itoa(n)
+					n++
+					label := ast.NewIdent("simrtSelLoop" + id)
+					try, start := ast.NewIdent("simrtTry"+id), ast.NewIdent("simrtStart"+id)
+					nlit := &ast.BasicLit{Kind: token.INT, Value: strconv.Itoa(ncomm)}
+					var none []ast.Stmt
+					var cases []ast.Stmt
+					i := 0
+					for _, c := range st.Body.List {
+						cc := c.(*ast.CommClause)
+						if cc.Comm == nil {
+							none = append(append(none, cc.Body...), &ast.BranchStmt{Tok: token.BREAK, Label: label})
+							continue
+						}
+						one := &ast.SelectStmt{Body: &ast.BlockStmt{List: []ast.Stmt{
+							cc,
+							&ast.CommClause{Body: []ast.Stmt{&ast.BranchStmt{Tok: token.CONTINUE}}},
+						}}}
+						cases = append(cases, &ast.CaseClause{List: []ast.Expr{&ast.BasicLit{Kind: token.INT, Value: strconv.Itoa(i)}}, Body: []ast.Stmt{one}})
+						i++
+					}
+					if !hasDefault {
+						none = []ast.Stmt{
+							&ast.IfStmt{Cond: &ast.UnaryExpr{Op: token.NOT, X: &ast.CallExpr{Fun: simrtFn("Blocked")}}, Body: &ast.BlockStmt{List: []ast.Stmt{simrtCall("RealBlock")}}},
+							&ast.AssignStmt{Lhs: []ast.Expr{try}, Tok: token.ASSIGN, Rhs: []ast.Expr{&ast.UnaryExpr{Op: token.SUB, X: &ast.BasicLit{Kind: token.INT, Value: "1"}}}},
+							&ast.BranchStmt{Tok: token.CONTINUE},
+						}
+					}
+					body := []ast.Stmt{
+						&ast.IfStmt{Cond: &ast.BinaryExpr{X: try, Op: token.EQL, Y: nlit}, Body: &ast.BlockStmt{List: none}},
+						&ast.SwitchStmt{Tag: &ast.BinaryExpr{X: &ast.ParenExpr{X: &ast.BinaryExpr{X: start, Op: token.ADD, Y: try}}, Op: token.REM, Y: nlit}, Body: &ast.BlockStmt{List: cases}},
+						&ast.BranchStmt{Tok: token.BREAK, Label: label},
+					}
+					loop := &ast.LabeledStmt{Label: label, Stmt: &ast.ForStmt{
+						Init: &ast.AssignStmt{Lhs: []ast.Expr{try, start}, Tok: token.DEFINE, Rhs: []ast.Expr{&ast.BasicLit{Kind: token.INT, Value: "0"}, &ast.CallExpr{Fun: simrtFn("SelectStart"), Args: []ast.Expr{nlit}}}},
+						Post: &ast.IncDecStmt{X: try, Tok: token.INC},
+						Body: &ast.BlockStmt{List: body},
+					}}
+					out := append(pre, loop)
+					if term {
+						out = append(out, unreachable())
+					}
+					return []ast.Stmt{&ast.BlockStmt{List: out}}
+				}
 				again := &ast.CommClause{Body: []ast.Stmt{
 					&ast.IfStmt{Cond: &ast.UnaryExpr{Op: token.NOT, X: &ast.CallExpr{Fun: simrtFn("Blocked")}}, Body: &ast.BlockStmt{List: []ast.Stmt{simrtCall("RealBlock")}}},
 					&ast.BranchStmt{Tok: token.CONTINUE},
 				}}
 				st.Body.List = append(st.Body.List, again)
 				loop := &ast.ForStmt{Body: &ast.BlockStmt{List: []ast.Stmt{st, &ast.BranchStmt{Tok: token.BREAK}}}}
-				if len(pre) == 0 {
+				if len(pre) == 0 && !term {
 					return []ast.Stmt{loop}
 				}
 				// a block keeps the temporaries local (the statement may be labelled)
-				return []ast.Stmt{&ast.BlockStmt{List: append(pre, loop)}}
+				out := append(pre, loop)
+				if term {
+					out = append(out, unreachable())
+				}
+				return []ast.Stmt{&ast.BlockStmt{List: out}}
 			}
 		case *ast.GoStmt:
 			// go f(args) -> simrt.Spawn(func() { f(args) }) with the arguments
@@ -847,6 +1134,18 @@ func prepare(scratch string) (rewriteStats, error) {
 	for _, kv := range goEnv() {
 		if k, v, ok := strings.Cut(kv, "="); ok && strings.HasPrefix(k, "GO") {
 			os.Setenv(k, v) // the source importer runs "go list" for module-aware import resolution
+		}
+	}
+	oldLoopVars = false
+	if gm, err := os.ReadFile(filepath.Join(sig, "go.mod")); err == nil {
+		for _, line := range strings.Split(string(gm), "\n") {
+			if f := strings.Fields(line); len(f) == 2 && f[0] == "go" {
+				if v := strings.Split(f[1], "."); len(v) >= 2 && v[0] == "1" {
+					if minor, err := strconv.Atoi(v[1]); err == nil && minor < 22 {
+						oldLoopVars = true
+					}
+				}
+			}
 		}
 	}
 	filesSeen = 0
